@@ -26,6 +26,23 @@ type RegHolder struct {
 
 type pkgLevel struct{}
 
+// one-word structs passed BY VALUE go through a path of their own in Marshal: the instance's
+// registrations and options must apply there too
+type WrapPT struct {
+	T *time.Time `plenc:"1"`
+}
+type WrapMT struct {
+	M map[string]time.Time `plenc:"1"`
+}
+type WrapN64 struct {
+	N *N64 `plenc:"1"`
+}
+type WrapI64 struct {
+	N *int64 `plenc:"1"`
+}
+
+var oneWord = []reflect.Type{reflect.TypeOf(WrapPT{}), reflect.TypeOf(WrapMT{}), reflect.TypeOf(WrapN64{}), reflect.TypeOf(WrapI64{})}
+
 func runC17(c *Ctx) {
 	coreHeader(c, 0)
 	vg := &ValGen{r: c.rng}
@@ -86,6 +103,30 @@ func runC17(c *Ctx) {
 			}
 			v := vg.Value(t, 2)
 			c.addRTOn(tc, v, fmt.Sprintf("instances h%d step%d inst=%d/%d pkg=%v", h, s, k, ninst, usePkg), usePkg)
+			// ... and a one-word struct by value on the same instance: the same bytes as by pointer
+			if !usePkg && c.rng.Chance(50) {
+				wt := oneWord[c.rng.Intn(len(oneWord))]
+				wtc := newTypeCase(wt, cfg)
+				wtc.P = p
+				wv := vg.Value(wt, 2)
+				c.addRT(wtc, wv, fmt.Sprintf("instances h%d step%d one-word by pointer", h, s))
+				byPtr, e1 := p.Marshal(nil, wv.Addr().Interface())
+				var byVal []byte
+				r := safely(func() (err error) { byVal, err = p.Marshal(nil, wv.Interface()); return err })
+				same := string(byVal) == string(byPtr)
+				if !same && len(byVal) == len(byPtr) && wt == reflect.TypeOf(WrapMT{}) {
+					// map entries come out in iteration order: compare what the bytes decode to
+					a, b := reflect.New(wt), reflect.New(wt)
+					if p.Unmarshal(byVal, a.Interface()) == nil && p.Unmarshal(byPtr, b.Interface()) == nil {
+						same = coqVal(a.Elem()) == coqVal(b.Elem())
+					}
+				}
+				if e1 == nil && (r.panicked || r.err != nil || !same) {
+					c.native = append(c.native, NativeViolation{Case: fmt.Sprintf("instances h%d step%d cfg=%s type=%s value=%+v", h, s, cfg, wt, wv.Interface()), Class: "by-value-differs-on-instance",
+						What: fmt.Sprintf("Marshal by value gives %x, by pointer %x on the same instance (%v %v)", byVal, byPtr, r.msg, r.err)})
+				}
+				c.count("one_word_by_value")
+			}
 		}
 		// an unregistered type on an instance without the registration must be rejected there
 		for i, in := range insts {
